@@ -49,6 +49,8 @@ class Kernel:
         tool = argv[0].rsplit('/', 1)[-1]
         if self.dead:
             raise Kill('process already killed')
+        if tool in ('s6_svok', 's6-svok'):
+            return 1, ''            # the container's supervisor is gone by the time finish runs
         label = tool
         if tool == 'ipset':
             words = [a for a in argv[1:] if a not in ('-exist', '-!')]
